@@ -1,0 +1,46 @@
+//go:build verif
+
+package parser
+
+import "strings"
+
+// Verification hooks (build tag verif only): structured access to the error list and the
+// rule table of the pigeon-generated parser. Add-only; nothing here is compiled without the tag.
+
+// VerifParseError is one entry of the parser's (deduplicated) error list.
+type VerifParseError struct {
+	Offset int    // byte offset the error was recorded at
+	Rule   string // innermost rule on the rule stack ("" if none)
+	Msg    string // message of the wrapped error
+}
+
+// VerifParseErrors decomposes an error returned by Parse/ParseReader/ParseFile.
+// ok is false if err is not the parser's own error list.
+func VerifParseErrors(err error) (out []VerifParseError, ok bool) {
+	el, isList := err.(errList)
+	if !isList {
+		return nil, false
+	}
+	for _, e := range el {
+		pe, isPE := e.(*parserError)
+		if !isPE {
+			out = append(out, VerifParseError{Offset: -1, Msg: e.Error()})
+			continue
+		}
+		rule := ""
+		if i := strings.LastIndex(pe.prefix, "rule "); i >= 0 {
+			rule = pe.prefix[i+len("rule "):]
+		}
+		out = append(out, VerifParseError{Offset: pe.pos.offset, Rule: rule, Msg: pe.Inner.Error()})
+	}
+	return out, true
+}
+
+// VerifRuleNames lists the names of the grammar's rules in table order.
+func VerifRuleNames() []string {
+	names := make([]string, len(g.rules))
+	for i, r := range g.rules {
+		names[i] = r.name
+	}
+	return names
+}
